@@ -92,12 +92,20 @@ func checkBCHTolerance(c *Ctx, r *Report) {
 				continue
 			}
 			var dObj types.Object
+			var dSel *ast.SelectorExpr // the distance held in a field of a local (best.difference)
+			var other ast.Expr
 			if _, isC := constInt(p, be.Y); isC {
-				dObj = identObj(p, be.X)
+				other = be.X
 			} else if _, isC := constInt(p, be.X); isC {
-				dObj = identObj(p, be.Y)
+				other = be.Y
 			}
-			if dObj == nil {
+			if other != nil {
+				dObj = identObj(p, other)
+				if dObj == nil {
+					dSel, _ = ast.Unparen(other).(*ast.SelectorExpr)
+				}
+			}
+			if dObj == nil && dSel == nil {
 				continue
 			}
 			refuses := false
@@ -106,7 +114,20 @@ func checkBCHTolerance(c *Ctx, r *Report) {
 			}
 			kk, mono := int64(-1), true
 			for d := int64(0); d <= 20; d++ {
-				v, err := c.rpfExpr(p, ifs.Cond, map[types.Object]*Val{dObj: vint(d)}, nil)
+				env := map[types.Object]*Val{}
+				var hk *rpf
+				if dObj != nil {
+					env[dObj] = vint(d)
+				} else {
+					dd := d
+					hk = &rpf{selHook: func(rr *rpf, sel *ast.SelectorExpr) (*Val, bool) {
+						if sel == dSel {
+							return vint(dd), true
+						}
+						return nil, false
+					}}
+				}
+				v, err := c.rpfExpr(p, ifs.Cond, env, hk)
 				if err != nil || v.K != VBool {
 					mono = false
 					break
@@ -356,6 +377,7 @@ func checkBothCopies(c *Ctx, r *Report) {
 	} else {
 		r.AnchorLost("M-BOTHCOPIES", "qrcode/decoder.BitMatrixParser.ReadVersion", "method not found")
 	}
+	checkQRInfoReadWhole(c, r)
 }
 
 func stripConv(e ast.Expr) ast.Expr {
@@ -409,10 +431,25 @@ func checkBlockLoop(c *Ctx, r *Report, rel, fn, getCw, getN string) {
 		r.AnchorLost("S-RSFULL", key, "method not found")
 		return
 	}
-	calls := findCalls(p, fd.Body, func(o types.Object) bool {
+	isCE := func(o types.Object) bool {
 		f, ok := o.(*types.Func)
 		return ok && f.Name() == "correctErrors"
-	})
+	}
+	calls := findCalls(p, fd.Body, isCE)
+	if len(calls) == 0 {
+		// the per-block loop may live in a helper of the same package that the method calls (an extracted method)
+		for _, hc := range findCalls(p, fd.Body, func(o types.Object) bool {
+			f, ok := o.(*types.Func)
+			return ok && f.Pkg() == p.Types && c.funcDecl[f] != nil && c.funcDecl[f].Body != nil
+		}) {
+			hf := typeutil.Callee(p.TypesInfo, hc).(*types.Func)
+			if hfd := c.funcDecl[hf]; len(findCalls(p, hfd.Body, isCE)) == 1 {
+				fd = hfd
+				calls = findCalls(p, fd.Body, isCE)
+				break
+			}
+		}
+	}
 	if len(calls) != 1 {
 		r.Undecided("S-RSFULL", key, c.pos(fd.Pos()), fmt.Sprintf("%d correctErrors calls", len(calls)))
 		return
@@ -522,6 +559,7 @@ func copiesFrom(p *packages.Package, s ast.Stmt, src types.Object) bool {
 
 // T-INFOREAD: the module coordinates the decoder reads format and version information from
 func checkQRInfoReadPositions(c *Ctx, r *Report) {
+	defer checkQRInfoReadWhole(c, r)
 	r.Rule("T-INFOREAD", "BitMatrixParser.ReadFormatInformation reads, most significant bit first, copy 1 from (0..5,8),(7,8),(8,8),(8,7),(8,5..0) and copy 2 from (8,d-1..d-7),(d-8..d-1,8) - 15 modules each, the mirror image of the encoder's placement (T-FMTPOS); ReadVersion reads copy 1 from columns d-9..d-11 of rows 5..0 and copy 2 from rows d-9..d-11 of columns 5..0 - 18 modules each: the loops are unrolled for dimensions 21, 45 and 177", 4)
 	type coord struct{ i, j int64 }
 	fold := func(fn string, dim int64) (map[string][]coord, []string, string) {
@@ -1009,4 +1047,249 @@ func checkDecodePipelines(c *Ctx, r *Report) {
 			r.Check(bad == "", "S-PIPELINE", key, pos, bad)
 		}
 	}
+}
+
+// S-INFOREADW: ReadFormatInformation and ReadVersion folded whole over a planted symbol: it decides the positions
+// (T-INFOREAD) and the use of both copies (M-BOTHCOPIES) whatever the shape of the code that reads them.
+func checkQRInfoReadWhole(c *Ctx, r *Report) {
+	if _, done := r.rules["S-INFOREADW"]; done {
+		return
+	}
+	r.Rule("S-INFOREADW", "BitMatrixParser.ReadFormatInformation and ReadVersion folded whole with the symbol replaced by a planted one (BitMatrix.Get answers from a set of dark modules, the decoders of the two kinds of word are recorders): with one dark module at the k-th position of a copy - in a mirrored symbol, at its transpose - the word of that copy handed to the decoder is 1<<(n-1-k) and the other word 0, for every k, n = 15 (format; dimensions 21, 45, 177) and n = 18 (version; dimensions 45, 177); with no dark module, and with every module dark except the two copies, both words are 0; ReadVersion decodes copy 2 after copy 1 failed or gave a version of another dimension, returns the first version whose dimension matches, and returns no version when neither does", 14)
+	type coord struct{ i, j int64 }
+	fdF, pF := c.funcDeclOf("qrcode/decoder", "BitMatrixParser.ReadFormatInformation")
+	fdV, pV := c.funcDeclOf("qrcode/decoder", "BitMatrixParser.ReadVersion")
+	if fdF == nil || fdV == nil {
+		r.AnchorLost("S-INFOREADW", "qrcode/decoder.BitMatrixParser", "ReadFormatInformation or ReadVersion not found")
+		return
+	}
+	// fold runs fn on a symbol whose dark modules are given by dark; verdicts scripts the version decoder's answers
+	// (0 = no match, n = version n); it returns the words handed to the decoders in call order and the result
+	fold := func(fd *ast.FuncDecl, p *packages.Package, dim int64, mirror bool, dark func(x, y int64) bool, verdicts []int64) (words [][]int64, res []*Val, err error) {
+		h := &rpf{unroll: 64}
+		h.selHook = func(rr *rpf, sel *ast.SelectorExpr) (*Val, bool) {
+			switch sel.Sel.Name {
+			case "parsedFormatInfo", "parsedVersion":
+				return &Val{K: VNil}, true
+			}
+			return nil, false
+		}
+		h.stHook = func(rr *rpf, lhs ast.Expr, v *Val) bool {
+			if sel, ok := ast.Unparen(lhs).(*ast.SelectorExpr); ok {
+				return sel.Sel.Name == "parsedFormatInfo" || sel.Sel.Name == "parsedVersion"
+			}
+			return false
+		}
+		h.callHook = func(rr *rpf, call *ast.CallExpr, callee types.Object) (*Val, bool) {
+			fnc, ok := callee.(*types.Func)
+			if !ok {
+				return nil, false
+			}
+			recvNamed := ""
+			if sig, ok := fnc.Type().(*types.Signature); ok && sig.Recv() != nil {
+				recvNamed = namedOf(sig.Recv().Type())
+			}
+			switch {
+			case recvNamed == "BitMatrix" && fnc.Name() == "Get":
+				x, y := rr.expr(call.Args[0]), rr.expr(call.Args[1])
+				if x.K != VInt || y.K != VInt {
+					rpfFail("BitMatrix.Get with non-constant arguments")
+				}
+				if x.I < 0 || y.I < 0 || x.I >= dim || y.I >= dim {
+					rpfFail("BitMatrix.Get(%d, %d) outside the %dx%d symbol", x.I, y.I, dim, dim)
+				}
+				return vbool(dark(x.I, y.I)), true
+			case recvNamed == "BitMatrix" && (fnc.Name() == "GetHeight" || fnc.Name() == "GetWidth"):
+				return vint(dim), true
+			case fnc.Name() == "FormatInformation_DecodeFormatInformation":
+				a, b := rr.expr(call.Args[0]), rr.expr(call.Args[1])
+				if a.K != VInt || b.K != VInt {
+					rpfFail("DecodeFormatInformation with non-constant arguments")
+				}
+				words = append(words, []int64{a.I, b.I})
+				return &Val{K: VNil}, true
+			}
+			return errCtorHook(rr, call, callee)
+		}
+		h.multiHook = func(call *ast.CallExpr, callee types.Object) ([]*Val, bool) {
+			fnc, ok := callee.(*types.Func)
+			if !ok {
+				return nil, false
+			}
+			switch fnc.Name() {
+			case "Version_decodeVersionInformation":
+				a := rpfCurrent.expr(call.Args[0])
+				if a.K != VInt {
+					rpfFail("decodeVersionInformation with a non-constant argument")
+				}
+				n := len(words)
+				words = append(words, []int64{a.I})
+				if n < len(verdicts) && verdicts[n] > 0 {
+					return []*Val{{K: VStruct, Ptr: true, Fields: map[string]*Val{"versionNumber": vint(verdicts[n])}}, {K: VNil}}, true
+				}
+				return []*Val{{K: VNil}, vstr("error")}, true
+			case "Version_GetVersionForNumber":
+				rpfFail("a symbol of dimension %d takes its version from the dimension", dim)
+			}
+			return nil, false
+		}
+		h.env = map[types.Object]*Val{}
+		if ro := recvObj(p, fd); ro != nil {
+			h.env[ro] = &Val{K: VStruct, Ptr: true, Local: true, Fields: map[string]*Val{
+				"mirror":    vbool(mirror),
+				"bitMatrix": {K: VStruct, Ptr: true, Fields: map[string]*Val{}},
+			}}
+		}
+		res, err = c.rpfCall(fd, p, nil, h)
+		return
+	}
+	formatCopies := func(dim int64) (w1, w2 []coord) {
+		for i := int64(0); i <= 5; i++ {
+			w1 = append(w1, coord{i, 8})
+		}
+		w1 = append(w1, coord{7, 8}, coord{8, 8}, coord{8, 7})
+		for j := int64(5); j >= 0; j-- {
+			w1 = append(w1, coord{8, j})
+		}
+		for j := dim - 1; j >= dim-7; j-- {
+			w2 = append(w2, coord{8, j})
+		}
+		for i := dim - 8; i < dim; i++ {
+			w2 = append(w2, coord{i, 8})
+		}
+		return
+	}
+	versionCopies := func(dim int64) (w1, w2 []coord) {
+		for j := int64(5); j >= 0; j-- {
+			for i := dim - 9; i >= dim-11; i-- {
+				w1 = append(w1, coord{i, j})
+			}
+		}
+		for i := int64(5); i >= 0; i-- {
+			for j := dim - 9; j >= dim-11; j-- {
+				w2 = append(w2, coord{i, j})
+			}
+		}
+		return
+	}
+	// positions decides one function on one dimension and orientation: want is the list of words expected per planting
+	positions := func(key string, fd *ast.FuncDecl, p *packages.Package, dim int64, mirror bool, w1, w2 []coord, flat func([][]int64) ([]int64, string)) {
+		r.Analysed(key)
+		n := len(w1)
+		type planting struct {
+			name string
+			dark func(x, y int64) bool
+			want []int64
+		}
+		at := func(cd coord) func(x, y int64) bool {
+			return func(x, y int64) bool {
+				if mirror {
+					x, y = y, x
+				}
+				return x == cd.i && y == cd.j
+			}
+		}
+		inCopies := map[coord]bool{}
+		for _, cd := range append(append([]coord{}, w1...), w2...) {
+			inCopies[cd] = true
+		}
+		pl := []planting{
+			{"no dark module", func(x, y int64) bool { return false }, []int64{0, 0}},
+			{"every module dark except the two copies", func(x, y int64) bool {
+				if mirror {
+					x, y = y, x
+				}
+				return !inCopies[coord{x, y}]
+			}, []int64{0, 0}},
+		}
+		for k := range w1 {
+			pl = append(pl, planting{fmt.Sprintf("one dark module at (%d, %d), position %d of copy 1", w1[k].i, w1[k].j, k), at(w1[k]), []int64{1 << uint(n-1-k), 0}})
+			pl = append(pl, planting{fmt.Sprintf("one dark module at (%d, %d), position %d of copy 2", w2[k].i, w2[k].j, k), at(w2[k]), []int64{0, 1 << uint(n-1-k)}})
+		}
+		for _, q := range pl {
+			words, _, err := fold(fd, p, dim, mirror, q.dark, nil)
+			if err != nil {
+				r.Undecided("S-INFOREADW", key, c.pos(fd.Pos()), q.name+": "+err.Error())
+				return
+			}
+			got, why := flat(words)
+			if why != "" {
+				r.Fail("S-INFOREADW", key, c.pos(fd.Pos()), "violation", q.name+": "+why)
+				return
+			}
+			if got[0] != q.want[0] || got[1] != q.want[1] {
+				r.Fail("S-INFOREADW", key, c.pos(fd.Pos()), "violation", fmt.Sprintf("%s: the decoder receives the words %#x (copy 1) and %#x (copy 2), expected %#x and %#x", q.name, got[0], got[1], q.want[0], q.want[1]))
+				return
+			}
+		}
+		r.Pass("S-INFOREADW", key, c.pos(fd.Pos()), fmt.Sprintf("%d plantings", len(pl)))
+	}
+	for _, mirror := range []bool{false, true} {
+		for _, dim := range []int64{21, 45, 177} {
+			w1, w2 := formatCopies(dim)
+			positions(fmt.Sprintf("qrcode/decoder.BitMatrixParser.ReadFormatInformation(d=%d,mirror=%v)", dim, mirror), fdF, pF, dim, mirror, w1, w2, func(words [][]int64) ([]int64, string) {
+				if len(words) != 1 || len(words[0]) != 2 {
+					return nil, fmt.Sprintf("FormatInformation_DecodeFormatInformation is called %d times, expected once with the two words", len(words))
+				}
+				return words[0], ""
+			})
+		}
+		for _, dim := range []int64{45, 177} {
+			w1, w2 := versionCopies(dim)
+			positions(fmt.Sprintf("qrcode/decoder.BitMatrixParser.ReadVersion(d=%d,mirror=%v)", dim, mirror), fdV, pV, dim, mirror, w1, w2, func(words [][]int64) ([]int64, string) {
+				if len(words) != 2 || len(words[0]) != 1 || len(words[1]) != 1 {
+					return nil, fmt.Sprintf("Version_decodeVersionInformation is called %d times when no copy decodes, expected once per copy", len(words))
+				}
+				return []int64{words[0][0], words[1][0]}, ""
+			})
+		}
+	}
+	// the order of the attempts and the agreement with the dimension (d=45 is version 7)
+	w1, w2 := versionCopies(45)
+	dark := func(x, y int64) bool { return (x == w1[17].i && y == w1[17].j) || (x == w2[16].i && y == w2[16].j) }
+	for _, sc := range []struct {
+		name     string
+		verdicts []int64
+		want     int64 // version returned; 0 = none
+		calls    int
+	}{
+		{"copy 1 decodes to the version of the dimension", []int64{7, 8}, 7, 1},
+		{"copy 1 does not decode, copy 2 gives the version of the dimension", []int64{0, 7}, 7, 2},
+		{"copy 1 decodes to a version of another dimension, copy 2 to the right one", []int64{8, 7}, 7, 2},
+		{"both copies decode to versions of another dimension", []int64{8, 9}, 0, 2},
+		{"neither copy decodes", []int64{0, 0}, 0, 2},
+	} {
+		key := "qrcode/decoder.BitMatrixParser.ReadVersion/" + sc.name
+		r.Analysed(key)
+		words, res, err := fold(fdV, pV, 45, false, dark, sc.verdicts)
+		switch {
+		case err != nil:
+			r.Undecided("S-INFOREADW", key, c.pos(fdV.Pos()), err.Error())
+		case len(res) != 2:
+			r.Undecided("S-INFOREADW", key, c.pos(fdV.Pos()), "ReadVersion does not return (version, error)")
+		case len(words) != sc.calls || words[0][0] != 1 || (len(words) > 1 && words[1][0] != 2):
+			r.Fail("S-INFOREADW", key, c.pos(fdV.Pos()), "violation", fmt.Sprintf("the version decoder is given %v, expected %d call(s): copy 1 (word 1) and then, unless it was accepted, copy 2 (word 2)", words, sc.calls))
+		case sc.want == 0 && res[0].K != VNil:
+			r.Fail("S-INFOREADW", key, c.pos(fdV.Pos()), "violation", "a version is returned although no copy gave the version of the dimension")
+		case sc.want == 0 && sc.verdicts[0] == 0 && res[1].K == VNil:
+			r.Fail("S-INFOREADW", key, c.pos(fdV.Pos()), "violation", "no error is returned although neither copy decoded")
+		case sc.want != 0 && (res[0].K != VStruct || res[0].Fields["versionNumber"] == nil || res[0].Fields["versionNumber"].I != sc.want || res[1].K != VNil):
+			r.Fail("S-INFOREADW", key, c.pos(fdV.Pos()), "violation", fmt.Sprintf("expected version %d and no error, got %s, %s", sc.want, res[0], res[1]))
+		default:
+			r.Pass("S-INFOREADW", key, c.pos(fdV.Pos()), "")
+		}
+	}
+	r.DecidedBy("T-INFOREAD", "S-INFOREADW", "the words the decoders receive depend on exactly the standard's modules, bit by bit")
+	r.DecidedBy("M-BOTHCOPIES", "S-INFOREADW", "both words reach the decoder, copy 2 of the version is tried whenever copy 1 is not accepted, and an accepted version has the symbol's dimension")
+}
+
+// namedOf gives the name of the named type t is, or points to ("" otherwise).
+func namedOf(t types.Type) string {
+	if p, ok := t.(*types.Pointer); ok {
+		t = p.Elem()
+	}
+	if n, ok := t.(*types.Named); ok {
+		return n.Obj().Name()
+	}
+	return ""
 }
